@@ -30,7 +30,7 @@ def showRoute (r : Route) : String := s!"{r.1}.{r.2.1}/" ++ showNlri r.2.2
 def showRoutes (l : List Route) : String := joinWith "+" (l.map showRoute)
 
 def showKept (k : Kept) : String :=
-  s!"{k.code}:{k.flag}:" ++ (if k.merged then "m" else toHex k.val)
+  s!"{k.code}:{k.flag}:" ++ (if k.merged && k.code == 2 then "m" else toHex k.val)
 
 def b01 (b : Bool) : String := if b then "1" else "0"
 
